@@ -220,6 +220,14 @@ def _a_cap(k):
     return f
 
 
+def a_arr0(c):
+    """first arrivals at clock 0.0 (0.0 is falsy: start/arrival dates equal to zero are a classic trap)"""
+    if not _claim(c, "arr0", "arr0"):
+        return False
+    c["classes"]["A"]["arr"][0] = [0.0, 0.5]
+    return True
+
+
 def a_syscap(c):
     if not _claim(c, "syscap", "syscap"):
         return False
@@ -321,7 +329,7 @@ ATOMS = [
     ("flex_any_lb", _a_flex("any", "lb")),
     ("net_direct", _a_net("direct")), ("net_cycle", _a_net("cycle")), ("net_prob", _a_net("prob")),
     ("net_jsq", _a_net("jsq")), ("net_jsq_order", _a_net("jsq_order")), ("net_lb", _a_net("lb")),
-    ("cap0", _a_cap(0)), ("cap1", _a_cap(1)), ("syscap", a_syscap),
+    ("cap0", _a_cap(0)), ("cap1", _a_cap(1)), ("syscap", a_syscap), ("arr0", a_arr0),
     ("c2", _a_servers("c2", 2)), ("c0", _a_servers("c0", 0)), ("cinf", _a_servers("cinf", "inf")),
     ("sched", _a_servers("sched", _sched(False))), ("sched_resume", _a_servers("sched_resume", _sched("resume"))),
     ("sched_restart", _a_servers("sched_restart", _sched("restart"))),
@@ -410,7 +418,7 @@ def family(tier, entry=None):
 
 CORE = ["prio", "preempt_resume", "preempt_reroute", "renege", "ccm", "cct_prio", "cap1", "sched", "sched_resume",
         "slotted_cap_resume", "batch", "baulk", "c2", "LIFO"]
-CORE_THOROUGH = ["preempt_restart", "jockey", "cct", "cap0", "syscap", "sched_reroute", "sched_restart", "slotted", "net_jsq", "process",
+CORE_THOROUGH = ["arr0", "preempt_restart", "jockey", "cct", "cap0", "syscap", "sched_reroute", "sched_restart", "slotted", "net_jsq", "process",
                  "srvprio", "SIRO", "trk_NaiveBlocking", "trk_NodeClassMatrix"]
 
 
